@@ -367,3 +367,17 @@ package tcp
 //@   ensures implies(!result, ghost(tcpSegs) == old(ghost(tcpSegs)) + 1 && ghost(lastTCPFlags) == int(flagRst | flagAck) && ghost(lastTCPSeq) == int(uint32(old(s.ackNumber)))
 //@             && ghost(lastTCPAck) == int(uint32(old(s.sequenceNumber) + seqnum.Value(old(s.logicalLen())))))
 //@   modifies modset(NETSEND)
+// ---------------------------------------------------------------------------
+// Receive path (C01, C04). ghost(delivered) counts the bytes handed to the application's
+// receive list (endpoint.readyToRead is the only place that appends to it).
+
+// readyToRead(s) appends s at the tail of the receive list, charges its size to the receive
+// buffer and counts its bytes as delivered; readyToRead(nil) only marks the stream closed.
+//@ func (*endpoint).readyToRead props C01 C04
+//@   requires e != nil && e.waiterQueue != nil && implies(s != nil, s != e.rcvList.tail)
+//@   ghost_set delivered = old(ghost(delivered)) + ite(s != nil, old(s.data.size), 0)
+//@   ensures implies(s != nil, e.rcvList.tail == s && s.segmentEntry.prev == old(e.rcvList.tail) && s.segmentEntry.next == nil && e.rcvBufUsed == old(e.rcvBufUsed) + s.data.size && e.rcvClosed == old(e.rcvClosed))
+//@   ensures implies(s != nil && old(e.rcvList.tail) != nil, old(e.rcvList.tail).segmentEntry.next == s && e.rcvList.head == old(e.rcvList.head))
+//@   ensures implies(s != nil && old(e.rcvList.tail) == nil, e.rcvList.head == s)
+//@   ensures implies(s == nil, e.rcvClosed && e.rcvList.tail == old(e.rcvList.tail) && e.rcvBufUsed == old(e.rcvBufUsed))
+//@   modifies e.rcvBufUsed, e.rcvList.head, e.rcvList.tail, e.rcvClosed, s.refCnt, s.segmentEntry.next, s.segmentEntry.prev, e.rcvList.tail.segmentEntry.next, ghost(delivered)
